@@ -15,6 +15,9 @@ type Gen struct {
 	LongStrings bool
 	// Escapes lets scalar() produce strings needing URL/JSON escaping (C18).
 	Escapes bool
+	// Lookalikes lets Scalar() produce strings that print like values of
+	// another JSON type ("1", "true", "null"), next to the values themselves.
+	Lookalikes bool
 }
 
 func New(seed int64) *Gen { return &Gen{R: rand.New(rand.NewSource(seed))} }
@@ -53,9 +56,15 @@ func (g *Gen) Scalar() interface{} {
 		if g.Escapes {
 			return escapes[g.R.Intn(len(escapes))]
 		}
+	case 11:
+		if g.Lookalikes {
+			return lookalikes[g.R.Intn(len(lookalikes))]
+		}
 	}
 	return Strs[g.R.Intn(len(Strs))]
 }
+
+var lookalikes = []interface{}{"1", 1.0, "0", 0.0, "true", true, "false", false, "null", "3.5", "-1", "s1 s2", "[s1 s2]", "map[]"}
 
 // Str returns a string scalar.
 func (g *Gen) Str() string {
